@@ -52,6 +52,9 @@ def build_object(ctx):
     if kind == "mps":
         nsite = (1, 1) if one_site else (2, 7)
         gm = gen.random_basis_list(rng, nsite=nsite, max_dim=600, min_dim=2)
+        if rng.random() < 0.06:
+            gm = gen.long_chain(rng, 10, 12)
+            ctx.cls("long-chain")
     else:
         nsite = (1, 1) if one_site else (2, 4)
         gm = gen.random_basis_list(rng, nsite=nsite, max_dim=24, min_dim=2)
